@@ -68,7 +68,8 @@ class GhostFS:
         S(r'^WalkDir::follow_links$',lambda e,run,a,f: a[0],'walkdir::WalkDir::follow_links')
         S(r'^<WalkDir as IntoIterator>::into_iter$',self.walk,'walkdir::WalkDir::into_iter [ghost file system: directories before their entries, entries in name order]')
         S(r'^<walkdir::IntoIter as Iterator>::next$',self.next,'walkdir::IntoIter::next')
-        S(r'^walkdir::IntoIter::skip_current_dir$',lambda e,run,a,f: UNIT,'walkdir::IntoIter::skip_current_dir')
+        S(r'^walkdir::IntoIter::skip_current_dir$',self.skip_current_dir,'walkdir::IntoIter::skip_current_dir [ghost: drops the rest of the directory the walk is in]')
+        S(r'^(std::fs::)?canonicalize$',self.canonicalize,'std::fs::canonicalize [ghost file system: absolute, links resolved]')
         S(r'^walkdir::DirEntry::path$',lambda e,run,a,f: Ref(Cell(Agg('Path',[mk_string(deref(a[0]).p)]))),'walkdir::DirEntry::path')
         S(r'^(std::fs::)?symlink_metadata$',self.meta,'std::fs::symlink_metadata [ghost file system; does not follow links]')
         S(r'^(std::fs::)?metadata$',self.meta_follow,'std::fs::metadata [ghost file system; follows links]')
@@ -110,6 +111,20 @@ class GhostFS:
         if it['i']>=len(it['ents']): return none()
         p=it['ents'][it['i']]; it['i']+=1
         return some(ok(Opaque('DirEntry',p)))
+    def skip_current_dir(self,e,run,a,f):
+        # walkdir: "skips the current directory": if the last yielded entry is a directory its contents are skipped, otherwise
+        # the remaining entries of the directory that entry lives in
+        it=deref(a[0]).p
+        if it['i']==0: return UNIT
+        last=it['ents'][it['i']-1]
+        is_dir=any(x.startswith(last+'/') for x in it['ents'])
+        pre=(last if is_dir else last.rsplit('/',1)[0] if '/' in last else '')+'/'
+        while it['i']<len(it['ents']) and it['ents'][it['i']].startswith(pre): it['i']+=1
+        return UNIT
+    def canonicalize(self,e,run,a,f):
+        p=self.resolve(run,need_conc(pb_bytes(a[0]),'canonicalize path').decode())
+        if p is None or self.kind(run,p) is None: return err(Opaque('io::Error','not found'))
+        return ok(Agg('PathBuf',[mk_string('/ghost-root/'+p)]))
     def kind(self,run,p):
         fs=run.ghost['fs']
         if p.startswith('@ROOT/'): p=p[len('@ROOT/'):]
@@ -166,7 +181,7 @@ class Record(Obligation):
         self.seed=seed; self.flen=flen; self.nlinks=nlinks
         self.bounds={'ghost file system':'files r/left/w, r/right/w (optionally r/left/x or r/r/w) with 0..%d free content bytes each'%flen,'path arguments':'[r], [r/left, r/right] or [r/left] (non-overlapping)',
                      'strip prefixes':'none; [r/]; [r/left/, r/right/] (keys collide); [r/, r/left/] (longest wins)','hash algorithms':'default, [sha256], [sha256, sha512], [md5] (unknown)',
-                     'read schedule':'every split of each file into non-empty chunks; optionally one failing read','symbolic links':'none, or one link to a file: relative target in the same directory, absolute target, relative target through .., or a chain of two links (links to directories and link cycles are outside the claim)'}
+                     'read schedule':'every split of each file into non-empty chunks; optionally one failing read','symbolic links':'none, or one link to a file: relative target in the same directory, absolute target, relative target through .., a chain of two links, or two links to the same file (links to directories and link cycles are outside the claim)'}
         self.witnesses=['recorded','duplicate_key_error','unknown_algorithm_error','io_error']; self.seen=set()
     def setup(self,eng,tier):
         self.eng=eng; self.b=B(eng); self.fs=GhostFS(eng,self.b); self.fn=eng.find_fn('record_artifacts')
@@ -183,7 +198,7 @@ class Record(Obligation):
         ex=run.pick(3,'extra')
         if ex==1: fs['r/left/x']=content('lx')
         if ex==2: fs['r/r/w']=content('nw')       # a directory nested in a directory of the same name: a strip prefix is removed once, not repeatedly
-        links=[{},{'r/left/l':'w'},{'r/left/l':'@ROOT/r/left/w'},{'r/right/l':'../left/w'},{'r/left/l':'l2','r/left/l2':'w'}][run.pick(self.nlinks,'link')]
+        links=[{},{'r/left/l':'w'},{'r/left/a':'w','r/left/b':'w'},{'r/left/l':'@ROOT/r/left/w'},{'r/right/l':'../left/w'},{'r/left/l':'l2','r/left/l2':'w'}][run.pick(self.nlinks,'link')]
         paths=[['r'],['r/left','r/right'],['r/left']][run.pick(3,'paths')]
         strips=[None,['r/'],['r/left/','r/right/'],['r/','r/left/']][run.pick(4,'strips')]
         algs=[None,['sha256'],['sha256','sha512'],['md5']][run.pick(4,'algs')]
@@ -227,7 +242,8 @@ class Record(Obligation):
             res=deref(deref(out[1]).f[0])
             got={need_conc(byte_list(k),'artifact key').decode():v for k,v in res.e}
             if set(got)!=set(keys):
-                rec['viol']={'kind':'wrong_key_set','known_key':None,'scenario':scn(m0),'predicted':'keys:'+','.join(sorted(got)),'what':'recorded keys %s differ from the expected %s'%(sorted(got),sorted(keys))}; return rec
+                # natively the directory order (hence which entries a wrong walk loses) is the file system's: require a deviation from the correct key set
+                rec['viol']={'kind':'wrong_key_set','known_key':None,'scenario':scn(m0),'predicted':{'not':'keys:'+','.join(sorted(keys))},'what':'recorded keys %s differ from the expected %s'%(sorted(got),sorted(keys))}; return rec
             algs=g['algs'] or ['sha256']
             for key,ps in keys.items():
                 desc=deref(got[key]); content=g['fs'][self.target_of(g,ps[0])]
